@@ -297,7 +297,8 @@ pub fn gen_packet(r: &mut StdRng) -> GenPkt {
         b = vec![];
         b.extend(be16(pt));
         b.extend(be16(hw as usize));
-        b.extend(be16(r.gen_range(0..9)));
+        // link layer address length: usually 0..8, but the field is 16 bit wide (e.g. 20 for InfiniBand)
+        b.extend(be16(if r.gen_range(0..4) == 0 { pick(r, &[9usize, 10, 11, 20, 255, 4096, 65535]) } else { r.gen_range(0..9) }));
         b.extend((0..8).map(|_| r.gen::<u8>()));
         b.extend(be16(proto as usize));
     } else {
